@@ -9,6 +9,9 @@ import (
 	sdkmath "cosmossdk.io/math"
 	sdk "github.com/cosmos/cosmos-sdk/types"
 
+	orbitertypes "github.com/noble-assets/orbiter/v2/types"
+
+	"orbverif/altstack"
 	"orbverif/fw"
 	"orbverif/model"
 	"orbverif/run"
@@ -21,10 +24,11 @@ type Shadow struct {
 	In, Out map[string]*big.Int // "sp|sc|dp|dc|denom"
 	Count   map[string]uint64   // "sp|sc|dp|dc"
 	Fees    map[string]*big.Int // observed fee credits per amounts key
+	Mixed   map[string]bool     // entries touched by denomination-changing transfers (in-out != fees)
 }
 
 func NewShadow() *Shadow {
-	return &Shadow{In: map[string]*big.Int{}, Out: map[string]*big.Int{}, Count: map[string]uint64{}, Fees: map[string]*big.Int{}}
+	return &Shadow{In: map[string]*big.Int{}, Out: map[string]*big.Int{}, Count: map[string]uint64{}, Fees: map[string]*big.Int{}, Mixed: map[string]bool{}}
 }
 
 func addTo(m map[string]*big.Int, k string, v *big.Int) {
@@ -71,6 +75,9 @@ func CompareStats(res *fw.Result, w *world.World, ctx sdk.Context, sh *Shadow, h
 	}
 	// in - out = fees observed on same-denom routes
 	for k := range sh.In {
+		if sh.Mixed[k] {
+			continue
+		}
 		diff := new(big.Int).Sub(sh.In[k], sh.Out[k])
 		if diff.Cmp(sh.Fees[k]) != 0 {
 			res.Violate(fw.Violation{Property: "C12", Kind: "incoming-minus-outgoing-differs-from-fees", Detail: k, Witness: hist})
@@ -203,6 +210,7 @@ func CheckC12(e *fw.Env, l *Lab) {
 			e.Res.Sample(map[string]any{"steps": steps, "last_ops": trail, "shadow_ledger_entries": len(st.Amounts), "shadow_sample": trunc(st.String(), 600)})
 		}
 	}
+	swapHistories(e, l)
 	if e.Shard == 0 {
 		statsOverflowScenario(e, l)
 	}
@@ -324,3 +332,39 @@ func sortedAmountKeys(s run.Stats) []string {
 }
 
 var _ = strings.Join
+
+// swapHistories: accumulating histories that mix plain, fee and denomination-changing transfers
+// (alternative keeper with the swap test controller over the same stores): two entries per
+// swapped transfer, later transfers keep accumulating on both.
+func swapHistories(e *fw.Env, l *Lab) {
+	sw := newSwapController(l.W)
+	st, err := altstack.New(l.W, altstack.Options{ExtraActions: []orbitertypes.ActionController{sw}})
+	if err != nil {
+		e.Res.Inconc("alternative stack: %v", err)
+		return
+	}
+	hists := e.N(16, 300)
+	for h := 0; h < hists; h++ {
+		ctx, _ := l.Base.CacheContext()
+		sh := NewShadow()
+		var trail []SwapStep
+		steps := 40 + e.R.Intn(60)
+		for s := 0; s < steps; s++ {
+			step := SwapLedgerStep(e, l, st, sw, ctx)
+			trail = append(trail, step)
+			if len(trail) > 12 {
+				trail = trail[len(trail)-12:]
+			}
+			if !step.OK {
+				e.Res.Inconc("swap history step refused: %s", step.Outcome)
+				break
+			}
+			sh.RecordSwap(step)
+			if !CompareStats(e.Res, l.W, ctx, sh, map[string]any{"swap_history": h, "step": s, "last_steps": trail}) {
+				break
+			}
+			e.Res.Sig("swap-hist|%s|%s->%s|%s", step.Pair.A, step.SrcDenom, step.DstDenom, step.Route.Kind+":"+step.Route.Counterparty())
+		}
+		e.Res.Count("swap-histories")
+	}
+}
